@@ -640,6 +640,14 @@ def w_holstein(case, led):
             d = float(rng.uniform(0.3, 0.9)) * (1 if (i + k) % 2 == 0 else -1)
             nb = 2 + (i + k + layout) % 2 if nmol >= 3 else 2 + (i + 2 * k + layout) % 3
             modes.append({"w0": w0, "w1": w1, "d": d, "nbas": nb})
+        if wdiff and nmodes == 2 and seed % 2 == 0:
+            # compensating shifts: one mode stiffens, the other softens, the frequencies are exchanged - the sums over the molecule (its zero-point energies) coincide
+            modes[1]["w0"], modes[1]["w1"] = modes[0]["w1"], modes[0]["w0"]
+        for m_ in modes:
+            ph_ = Phonon([Quantity(m_["w0"]), Quantity(m_["w1"])], [Quantity(0), Quantity(m_["d"])], m_["nbas"])
+            want10 = -(m_["w1"] ** 2) * m_["d"] / np.sqrt(2.0 * m_["w0"])
+            led.check(abs(ph_.term10 - want10) <= tol(want10, 10), "post:Phonon.term10:linear_coupling_of_the_excited_surface", "Phonon.term10",
+                      f"term10 = {ph_.term10} != -w1^2 d / sqrt(2 w0) = {want10}", ("holstein", "term10", nmol, layout, i, wdiff, m_["w0"]), {"wdiff": bool(m_["w0"] != m_["w1"])}, {"mode": m_})
         ex_ev = float(rng.uniform(3.0, 20.0))
         spec.append({"elocalex": ex_ev * ev, "modes": modes})
         phs = [Phonon([Quantity(m["w0"]), Quantity(m["w1"])], [Quantity(0), Quantity(m["d"])], m["nbas"]) for m in modes]
